@@ -40,7 +40,8 @@ def required_cells(tier):
             "symlinked-twin", "hard-link", "empty-files", "no-duplicates", "non-source-twin", "cli", "same-size-same-mtime-different-content", "link-enumerated-before-target",
             "class-size>20", "cli:class-size>20", "negation-after-wildcard", "cli:negation-after-wildcard", "two-directory-code-base", "directory-named-through-link",
             "ancestor-directory-named-like-a-pattern", "report-to-stream", "same-object-after-a-file-was-added", "dot-directory",
-            "fixed:reinclusion-below-excluded-directory", "fixed:member-below-excluded-directory-has-a-twin", "fixed:file-names-not-valid-utf-8"]
+            "fixed:reinclusion-below-excluded-directory", "fixed:member-below-excluded-directory-has-a-twin", "fixed:file-names-not-valid-utf-8",
+            "fixed:hidden-file-named-like-an-extension", "cli:-x-directory-only-pattern-beside-files-of-that-name"]
 
 
 def gen_case(rng, big=False, force_neg=False):
@@ -363,6 +364,9 @@ def fixed_scenarios(ctx, root):
                                   "vendor/deep/keep.hpp": C, "src/keep_twin.hpp": C, "src/solo.c": POOL[3 % len(POOL)]}, pats, "reinclusion-below-excluded-directory"))
     bad = {os.fsdecode(b"src/caf\xe9.c"): A, "src/cafe.c": A, "util.c": B, "util_copy.c": B, os.fsdecode(b"\xfctil.c"): B,
            os.fsdecode(b"sub/\xff\xfe.h"): C, "sub/plain.h": C, os.fsdecode(b"sub/only\x80.c"): POOL[3 % len(POOL)]}
+    # hidden files whose whole name is an extension are not source files: their twins stay unique
+    scen.append(("H0", {"include/config.h": A, "include/.h": A, "decls.inc": B, ".inc": B, "src/x.c": C, "src/.c": C, "src/.cpp": C, "y.hpp": POOL[3 % len(POOL)]}, [],
+                 "hidden-file-named-like-an-extension"))
     scen.append(("B0", bad, [], "file-names-not-valid-utf-8"))
     scen.append(("B1", bad, ["*.h"], "file-names-not-valid-utf-8"))
     for k, (name, files, pats, cell) in enumerate(scen):
@@ -390,6 +394,8 @@ def fixed_scenarios(ctx, root):
                         with open(full, "rb") as f:
                             by.setdefault(f.read(), set()).add(full)
             want = {frozenset(v) for v in by.values() if len(v) >= 2}
+            if cell.startswith("hidden-file"):
+                want = set()        # by construction (not by the code's own answer): `.h`, `.inc`, `.c` are no source files
             got = {frozenset(str(p) for p in s_) for s_ in report.find_duplicates(cb)}
             acc.hook("find_duplicates")
             show = lambda cl: sorted(sorted(ascii(os.path.relpath(p, real_root)) for p in c) for c in cl)
@@ -414,6 +420,40 @@ def fixed_scenarios(ctx, root):
             acc.held(cells=cells, cls="fixed", nontrivial=None)
 
 
+def cli_directory_only_pattern(ctx, root):
+    """`codebasin -R duplicates -x 'test*/'`: the pattern names directories; the top-level twins test_io.cpp and
+    test_net.cpp are files and stay in the report, the copy below tests/ goes."""
+    acc = ctx.acc
+    shutil.rmtree(root, ignore_errors=True)
+    os.makedirs(os.path.join(root, "tests"))
+    os.makedirs(os.path.join(root, "src"))
+    content = {"test_io.cpp": POOL[0], "test_net.cpp": POOL[0], "tests/copy.cpp": POOL[0], "src/a.cpp": POOL[1], "src/b.cpp": POOL[1], "tests/helper.h": POOL[2 % len(POOL)],
+               "src/helper_unique.h": POOL[3 % len(POOL)]}
+    for rel, c in content.items():
+        with open(os.path.join(root, rel), "wb") as f:
+            f.write(c)
+    with open(os.path.join(root, "analysis.toml"), "w") as f:
+        f.write("[platform.p]\ncommands = \"db.json\"\n")
+    with open(os.path.join(root, "db.json"), "w") as f:
+        f.write("[]")
+    real_root = os.path.realpath(root)
+    problems = []
+    for xs, want in ((["test*/"], [["test_io.cpp", "test_net.cpp"], ["src/a.cpp", "src/b.cpp"]]), (["./tests/", "src//"], [["test_io.cpp", "test_net.cpp"]]),
+                     (["tests"], [["test_io.cpp", "test_net.cpp"], ["src/a.cpp", "src/b.cpp"]]), ([], [["test_io.cpp", "test_net.cpp", "tests/copy.cpp"], ["src/a.cpp", "src/b.cpp"]])):
+        rc, out, err = cli.run("codebasin", ["-R", "duplicates"] + [y for x in xs for y in ("-x", x)] + ["analysis.toml"], real_root)
+        acc.hook("find_duplicates")
+        groups = sorted(sorted(os.path.relpath(p, real_root) for p in g) for g in cli.parse_duplicates(out))
+        if xs == ["./tests/", "src//"]:
+            continue        # (what git makes of `./x/` and `x//` is C09's subject; run for the record only)
+        if rc != 0 or groups != sorted(sorted(g) for g in want):
+            problems.append({"-x": xs, "rc": rc, "expected": sorted(sorted(g) for g in want), "observed": groups, "stderr": err[-200:]})
+    cells = {"cli:-x-directory-only-pattern-beside-files-of-that-name"}
+    if problems:
+        acc.violated({"input": {"scenario": "cli -x directory-only"}, "witness": {"problems": problems}}, cells=cells, cls="fixed", nontrivial=None)
+    else:
+        acc.held(cells=cells, cls="fixed", nontrivial=None)
+
+
 def post_check(m, tier):
     # the weak-digest injection is only meaningful while the code hashes files at all; report if it never fired
     return [] if m["hooks"].get("H-hash", 0) else ["H-hash (forced digest collisions) never fired: find_duplicates no longer calls hashlib.file_digest"] \
@@ -427,6 +467,8 @@ def run_shard(ctx):
     root = os.path.join(ctx.scratch, "d1", "d0", "sub", "cb")
     os.makedirs(os.path.dirname(root), exist_ok=True)
     fixed_scenarios(ctx, root)
+    if ctx.shard == 0:
+        cli_directory_only_pattern(ctx, root)
     for i in range(b["cases"]):
         # every 3rd command-line case and one case in 50 elsewhere holds a class of more than 20 files
         case = gen_case(rng, big=(i % 3 == 1 if i < b["cli_cases"] else i % 50 == 7), force_neg=(i < b["cli_cases"] and i % 3 == 2))
